@@ -1,7 +1,7 @@
 """C13  Crowding metrics are safe, well-formed and match their definitions."""
 import numpy as np
 from harness.core import *
-from harness import crowd
+from harness import crowd, layouts
 
 
 ENGINES = {}
@@ -21,7 +21,7 @@ def engine(name):
 
 
 def run_metric(case):
-    r = engine(case["engine"]).call(case["label"], decarr(case["F"], 2), case["n_remove"])
+    r = engine(case["engine"]).call(case["label"], decarr(case["F"], 2), case["n_remove"], layout=case.get("layout"), prime_n_remove=case.get("prime_n_remove"))
     if r.get("crash"):
         return {"crash": True, "exit": r.get("exit"), "stderr": r.get("stderr", "")[-1500:], "d": None, "frame": True, "logs": [], "argpart": []}
     if "exception" in r:
@@ -39,7 +39,7 @@ class C13(Check):
             "duplicates, curve-like (two points hold all extremes); k in 0..N with the limits of the pruning range over-represented, and blocks that sweep every k from N-M-1 to N "
             "on small 3+ objective fronts for all pruning metrics and both engines; values compared bit-exactly with the models of metrics.py, misc/*.py and of the compiled kernels (checked flat buffers; np.log2 and "
             "np.argpartition answers recorded as oracles); independent reference implementations of the published definitions on tie-free fronts; "
-            "non-trivial = more than two points; distinct by hash")
+            "15% of the random cases hand the front over in another memory layout, 15% ask the same operator object about the same front with another n_remove first; non-trivial = more than two points; distinct by hash")
     ASSUMPTIONS = ["np.log2 (libm) and np.argpartition (introselect tie choice) are oracles; the argpartition answer is validated (mnn0_ok) by the model",
                    "the compiled kernels are modelled from the .pyx and tied to the shipped .so by bit-exact runs; the Cython -> C++ translation and the compiler are trusted",
                    "equality with the published definitions is decided by correspondence + independent reference implementations, not by a theorem (partial)"]
@@ -66,7 +66,12 @@ class C13(Check):
             F, style = crowd.gen_front(self.rng)
             label = self.rng.choice(self.LABELS)
             eng = self.rng.choice(["compiled", "fallback"])
-            yield {"F": enc(F), "style": style, "label": label, "n_remove": crowd.pick_n_remove(self.rng, len(F), F.shape[1]), "engine": eng}
+            case = {"F": enc(F), "style": style, "label": label, "n_remove": crowd.pick_n_remove(self.rng, len(F), F.shape[1]), "engine": eng}
+            if self.rng.random() < 0.15:
+                case["layout"] = self.rng.choice(layouts.LAYOUTS[1:])          # the caller's array is Fortran-ordered / a slice of a larger one
+            if self.rng.random() < 0.15 and not (label == "pcd" and eng == "compiled" and F.shape[1] >= 3):
+                case["prime_n_remove"] = self.rng.choice([0, 1, max(0, case["n_remove"] - 1), case["n_remove"] + 1])    # operator object reused
+            yield case
 
     def run(self, case):
         return run_metric(case)
@@ -120,7 +125,8 @@ class C13(Check):
         return len(case["F"]) > 2
 
     def classes(self, case, obs):
-        return [case["label"], case["style"], "obj=%d" % len(case["F"][0]), case["engine"]]
+        return [case["label"], case["style"], "obj=%d" % len(case["F"][0]), case["engine"]] + (["layout-" + case["layout"]] if case.get("layout") else []) + (
+            ["operator-reused-with-other-n_remove"] if case.get("prime_n_remove") is not None else [])
 
 
 if __name__ == "__main__":
